@@ -784,19 +784,20 @@ class CopcReader:
         points = self._fetch_and_decompress_points_of_nodes(nodes)
 
         if bounds is not None:
-            # clipped so that bounds (far) outside of the int32 grid saturate
-            # instead of wrapping around when converted
+            # clipped (one step outside of the int32 grid, so that a bound beyond the grid
+            # does not select the points lying on its edge) so that huge or infinite bounds
+            # saturate instead of wrapping around when converted
             i32 = np.iinfo(np.int32)
             MINS = np.clip(
                 np.round((bounds.mins - self.header.offsets) / self.header.scales),
-                i32.min,
-                i32.max,
-            ).astype(np.int32)
+                i32.min - 1,
+                i32.max + 1,
+            ).astype(np.int64)
             MAXS = np.clip(
                 np.round((bounds.maxs - self.header.offsets) / self.header.scales),
-                i32.min,
-                i32.max,
-            ).astype(np.int32)
+                i32.min - 1,
+                i32.max + 1,
+            ).astype(np.int64)
             x_keep = (MINS[0] <= points.X) & (points.X <= MAXS[0])
             y_keep = (MINS[1] <= points.Y) & (points.Y <= MAXS[1])
             z_keep = (MINS[2] <= points.Z) & (points.Z <= MAXS[2])
